@@ -25,8 +25,9 @@ class Pending(object):
 class StepConn(object):
     """what `ScalesSocket.handle` is: the client end of one connection"""
 
-    def __init__(self):
+    def __init__(self, eof_mid=False):
         self.closed = False
+        self.eof_mid = eof_mid     # an end of stream arrives after part of the block being read
         self.pend = {'write': None, 'read': None}
         self.written = []          # byte strings that reached the peer, one per successful sendall
         self.buffered = []         # (outcome, data) of the next reads: they return without blocking
@@ -80,9 +81,21 @@ class StepConn(object):
     def close(self):
         self.closed = True
 
+    def connect(self, addr):
+        """what the real ScalesSocket.open() calls on the OS socket it has just created"""
+        o = self.owner
+        o.connects += 1
+        if o.next_connect != 'ok':
+            raise _socket.error(111, 'Connection refused')
+        o.conns.append(self)
+
     # --- harness API
     def release(self, kind, outcome, data=None):
         p = self.pend[kind]
+        if kind == 'read' and outcome == 'eof' and self.eof_mid and p.arg >= 2:
+            # the peer goes away in the middle of the block: some of its bytes arrive, then end of stream
+            self.buffered = [('eof', None)] + list(self.buffered)
+            outcome, data = 'ok', b'\x00' * (p.arg // 2)
         p.outcome, p.data = outcome, data
         p.ev.set()
 
@@ -92,8 +105,25 @@ class StepConn(object):
         self.release('read', reads[0][0], reads[0][1])
 
 
+def real_socket(host='h', port=1):
+    """The REAL scales.scales_socket.ScalesSocket over step-controlled connections: only the OS socket class
+    (`gsocket`) and name resolution are replaced, so open()/close()/isOpen() are the code under test (what is
+    left behind by a refused connect included)."""
+    import scales.scales_socket as ss
+    s = ss.ScalesSocket(host, port)
+    s.next_connect, s.connects, s.conns, s.eof_mid = 'ok', 0, [], False
+    s._resolveAddr = lambda: [(2, 1, 6, '', (host, port))]
+
+    def factory(family, type_):
+        c = StepConn(s.eof_mid)
+        c.owner = s
+        return c
+    ss.gsocket = factory          # one driver at a time per worker process
+    return s
+
+
 class StepSocket(object):
-    """stands for ScalesSocket(host, port)"""
+    """stands for ScalesSocket(host, port) (kept for experiments; the checks use `real_socket`)"""
 
     def __init__(self, host='h', port=1):
         self.host, self.port = host, port
@@ -101,6 +131,7 @@ class StepSocket(object):
         self.next_connect = 'ok'
         self.connects = 0
         self.conns = []
+        self.eof_mid = False
 
     def isOpen(self):
         return self.handle is not None
@@ -109,7 +140,7 @@ class StepSocket(object):
         self.connects += 1
         if self.next_connect != 'ok':
             raise _socket.error(111, 'Connection refused')
-        self.handle = StepConn()
+        self.handle = StepConn(self.eof_mid)
         self.conns.append(self.handle)
 
     def close(self):
